@@ -513,19 +513,22 @@ def SObj.desc (o : SObj) (name : List Nat) : Res :=
   if o.props.contains name then
     if name = sLength then .arr [[strLength o.s], [0, 0, 0], []] else .arr [[1], [1, 1, 1], []]
   else match o.indexUnit name with
-    | some chr => .arr [U (encodeRune chr), [0, 0, 0]]          -- &property{stringValue(string(chr)), 0}: mode 0
+    | some chr => .arr [U (encodeRune chr), [0, 1, 0]]          -- &property{stringValue(string(chr)), 0o010}: enumerable only
     | none => .undef
 
 /-- propertyIsEnumerable -/
 def SObj.isEnumerable (o : SObj) (name : List Nat) : Bool :=
-  if o.props.contains name then name != sLength else false      -- index properties carry mode 0
+  if o.props.contains name then name != sLength else (o.indexUnit name).isSome   -- index properties are enumerable
 
-/-- Object.defineProperty(o, name, {value: "x"}) then o[name]: objectDefineOwnProperty consults only the plain
-    map (readProperty), so an index name is "new", gets written and shadows the character -/
+/-- Object.defineProperty(o, name, {value: "x"}) then o[name].  stringDefineOwnProperty (type_string.go): a name
+    that is not stored but is a computed index property accepts only a descriptor that changes nothing
+    (here: the same one-unit value), else TypeError; every other name goes to objectDefineOwnProperty -/
 def SObj.defineX (o : SObj) (name : List Nat) : Res :=
   if o.props.contains name then
     if name = sLength then .throwType else .str [120]
-  else .str [120]
+  else match o.indexUnit name with
+    | some chr => if U (encodeRune chr) = [120] then .str [120] else .throwType   -- sameValue(string(chr), "x")
+    | none => .str [120]
 
 /-- the string a receiver of these observers wraps -/
 def recvString (E : Env) : Recv → List Nat := thisString E
